@@ -1324,8 +1324,11 @@ func (d *Ledger) actAccountLevel() {
 			caller = d.anyAcct()
 		}
 		c := d.call("ClaimDeveloperRewards", caller, sc)
-		if (d.W.Info(caller).Kind == "sc" && d.chance(50)) || d.chance(25) {
+		if (d.W.Info(caller).Kind == "sc" && d.chance(50)) || d.chance(35) {
 			c.CT = vmcommon.AsynchronousCall
+			if d.chance(60) {
+				c.GasLocked = []uint64{50, 150, 400, 5000}[d.R.Intn(4)] // the callback's locked gas: below and above the claim's price
+			}
 		}
 		d.record("exec", d.shardOfName(caller), c)
 	default:
